@@ -169,6 +169,11 @@ def e2e(spec):
         for key, v in table.items():
             distinct.setdefault(v, []).append(key)
         name = f"e2e/{k}"
+        if k.startswith("history/") and any(v != "same" for v in distinct):
+            bad = [v for v in distinct if v != "same"][0]
+            res.append(outcome(name, "violated", detail=f"within one process the signature depends on what was signed before: {bad}",
+                               witness={"value": bad, "builds": distinct[bad][:4]}, sample=f"'{k}' of units/c12_build.py"))
+            continue
         if len(distinct) == 1:
             res.append(outcome(name, "proved", stage="replay matrix", sample=f"{len(table)} builds (shift, hash seed) agree"))
         else:
